@@ -15,7 +15,7 @@ import (
 func init() {
 	Register(&Property{
 		ID:    "C41",
-		Floor: 50,
+		Floor: 65,
 		Clauses: "html parser containment: (*parser).parse defers, before any call, a closure that calls recover(), stores the named result and cannot re-panic; parse is called only from ParseWithOptions/ParseFragmentWithOptions and its result is tested; " +
 			"the code of Parse/ParseFragment(+WithOptions) executed outside that frame (call-only closure of the four entry points, stopping at parse) is a fixed reviewed set of functions, makes dynamic calls only through ParseOption values " +
 			"(whose closures in the package are trivial), reaches insertion-mode functions only as values, and has a reviewed panic-site inventory; insertion modes (parser.im, originalIM, templateStack) are invoked only in parseCurrentToken and parseForeignContent (itself called only from parseCurrentToken), which run only under parse; " +
@@ -24,7 +24,7 @@ func init() {
 			"parse loop: every cycle passes Tokenizer.Next, Token() is stored in p.tok, Err() is consulted under Type==ErrorToken and its result used, the only non-nil return is under err!=nil && err!=io.EOF; " +
 			"the open-element stack grows by append only in insertOpenElement, which panics above 512 (contained); the adoption-agency outer loop is a counted loop with a constant bound.",
 		NotCovered: "termination of parseCurrentToken's `for !consumed` loop, of the adoption agency's inner loop and of the stack-scanning loops (no ranking argument); acyclicity and mutual consistency as semantic facts (only the three mutators' local shape is decided); " +
-			"that InsertBefore's oldChild is a child of the receiver at every call site (fosterParent passes a table whose Parent may be nil: then parent=oe[i-1] and InsertBefore(n, table) would corrupt links; not decided); " +
+			"that InsertBefore's oldChild is a child of the receiver at every call site (fosterParent's fallback parent=oe[i-1] for a table without Parent would pass a non-child; whether that state is reachable is not decided); " +
 			"that rendering a returned tree succeeds (void elements without children, doctype quoting); panics inside the recover frame are converted to errors, not excluded.",
 		Run: c41,
 	})
@@ -40,13 +40,13 @@ func c41(c *Ctx) {
 	if fnParse == nil {
 		return
 	}
-	recs := HxDeferredRecovers(fnParse)
+	recs := HtmDeferredRecovers(fnParse)
 	if c.Check(len(recs) == 1, "recover-frame", parse+": defers a closure that calls recover()", fnParse.Pos(), "", fmt.Sprintf("found %d deferred recover closures", len(recs))) {
 		r := recs[0]
 		c.Check(r.StoresNamedResult, "recover-frame", parse+": the recover closure stores the named result", r.Defer.Pos(), "", "a recovered panic would be swallowed and parse would return nil with a half-built tree")
 		// no call precedes the defer; the closure itself has no panic and calls only fmt
 		early := ""
-		HxEach(fnParse, func(in ssa.Instruction) {
+		HtmEach(fnParse, func(in ssa.Instruction) {
 			ci, ok := in.(ssa.CallInstruction)
 			if !ok || in == ssa.Instruction(r.Defer) {
 				return
@@ -73,7 +73,7 @@ func c41(c *Ctx) {
 		})
 		c.Check(early == "", "recover-frame", parse+": the defer precedes every call", r.Defer.Pos(), "", "a call runs before the recover frame is installed: "+early)
 		bad := ""
-		HxEach(r.Closure, func(in ssa.Instruction) {
+		HtmEach(r.Closure, func(in ssa.Instruction) {
 			switch x := in.(type) {
 			case *ssa.Panic:
 				bad = "re-panics"
@@ -87,7 +87,7 @@ func c41(c *Ctx) {
 		c.Check(bad == "", "recover-frame", parse+": the recover closure only formats the error", r.Closure.Pos(), "", "the closure "+bad)
 		c.Guard(FnName(r.Closure), Sel{Name: "store to the named result", F: func(p *Prog, fn *ssa.Function) []ssa.Instruction {
 			var out []ssa.Instruction
-			HxEach(fn, func(in ssa.Instruction) {
+			HtmEach(fn, func(in ssa.Instruction) {
 				if st, ok := in.(*ssa.Store); ok {
 					if _, fv := st.Addr.(*ssa.FreeVar); fv {
 						out = append(out, in)
@@ -217,7 +217,7 @@ func c41DynamicIM(c *Ctx) {
 	n := 0
 	var bad []string
 	for _, fn := range c.P.All {
-		HxEach(fn, func(in ssa.Instruction) {
+		HtmEach(fn, func(in ssa.Instruction) {
 			ci, ok := in.(ssa.CallInstruction)
 			if !ok || ci.Common().IsInvoke() || ci.Common().StaticCallee() != nil {
 				return
@@ -258,7 +258,7 @@ func c41Outside(c *Ctx, entries []string, parse string) []string {
 	for len(work) > 0 {
 		fn := work[len(work)-1]
 		work = work[:len(work)-1]
-		HxEach(fn, func(in ssa.Instruction) {
+		HtmEach(fn, func(in ssa.Instruction) {
 			ci, ok := in.(ssa.CallInstruction)
 			if !ok {
 				return
@@ -328,7 +328,7 @@ func c41Outside(c *Ctx, entries []string, parse string) []string {
 				continue
 			}
 			n++
-			HxEach(fn, func(in ssa.Instruction) {
+			HtmEach(fn, func(in ssa.Instruction) {
 				switch in.(type) {
 				case ssa.CallInstruction, *ssa.Panic, *ssa.IndexAddr, *ssa.Index, *ssa.Slice, *ssa.TypeAssert:
 					bad = append(bad, FnName(fn)+": "+DescribeInstr(in))
@@ -403,12 +403,12 @@ func c41NodeTypes(c *Ctx) {
 	}
 	n := 0
 	var bad []string
-	for _, s := range c.P.HxStoresUnder("html.Node") {
+	for _, s := range c.P.HtmStoresUnder("html.Node") {
 		if s.Path != "Type" {
 			continue
 		}
 		n++
-		if k, isConst := HxConstInt(s.St.Val); isConst {
+		if k, isConst := HtmConstInt(s.St.Val); isConst {
 			if okVals[k] {
 				continue
 			}
@@ -443,7 +443,7 @@ func c41ScopeMarker(c *Ctx) {
 		if fn.Synthetic == "package initializer" {
 			continue
 		}
-		HxEach(fn, func(in ssa.Instruction) {
+		HtmEach(fn, func(in ssa.Instruction) {
 			for _, op := range in.Operands(nil) {
 				g, ok := (*op).(*ssa.Global)
 				if !ok || g.Name() != "scopeMarker" || g.Pkg == nil || Short(g.Pkg.Pkg.Path()) != "html" {
@@ -538,7 +538,7 @@ func c41ParseReturns(c *Ctx, fn *ssa.Function) {
 	}
 	var bad []string
 	n := 0
-	HxEach(fn, func(in ssa.Instruction) {
+	HtmEach(fn, func(in ssa.Instruction) {
 		r, ok := in.(*ssa.Return)
 		if !ok || in.Block() == fn.Recover {
 			return
@@ -576,7 +576,7 @@ func c41OnlyAppend(c *Ctx, allowed string) {
 	n := 0
 	var bad []string
 	for _, fn := range c.P.All {
-		HxEach(fn, func(in ssa.Instruction) {
+		HtmEach(fn, func(in ssa.Instruction) {
 			call, ok := in.(*ssa.Call)
 			if !ok || CalleeName(&call.Call) != "builtin:append" {
 				return
@@ -585,7 +585,7 @@ func c41OnlyAppend(c *Ctx, allowed string) {
 			if !ok {
 				return
 			}
-			path, root := HxFieldPath(u.X)
+			path, root := HtmFieldPath(u.X)
 			if len(path) != 1 || path[0] != "oe" || !strings.Contains(root.Type().String(), "html.parser") {
 				return
 			}
@@ -611,7 +611,7 @@ func c41CountedLoop(c *Ctx, name string, max int64) {
 		return
 	}
 	best := int64(-1)
-	HxEach(fn, func(in ssa.Instruction) {
+	HtmEach(fn, func(in ssa.Instruction) {
 		ifi, ok := in.(*ssa.If)
 		if !ok {
 			return
@@ -620,17 +620,17 @@ func c41CountedLoop(c *Ctx, name string, max int64) {
 		if !ok || b.Op != token.LSS {
 			return
 		}
-		k, isConst := HxConstInt(b.Y)
+		k, isConst := HtmConstInt(b.Y)
 		phi, isPhi := b.X.(*ssa.Phi)
 		if !isConst || !isPhi || len(phi.Edges) != 2 {
 			return
 		}
 		init, step := false, false
 		for _, e := range phi.Edges {
-			if _, ok := HxConstInt(e); ok {
+			if _, ok := HtmConstInt(e); ok {
 				init = true
 			}
-			if x, d, ok := HxBin(e, token.ADD); ok && d == 1 && x == ssa.Value(phi) {
+			if x, d, ok := HtmBin(e, token.ADD); ok && d == 1 && x == ssa.Value(phi) {
 				step = true
 			}
 		}
